@@ -15,7 +15,6 @@
 package cjk
 
 import (
-	"bytes"
 	"container/ring"
 	"unicode/utf8"
 
@@ -40,14 +39,26 @@ func (s *BigramFilter) Filter(input analysis.TokenStream) analysis.TokenStream {
 
 	for _, tokout := range input {
 		if tokout.Type == analysis.Ideographic {
-			runes := bytes.Runes(tokout.Term)
 			sofar := 0
-			for _, run := range runes {
-				rlen := utf8.RuneLen(run)
+			for sofar < len(tokout.Term) {
+				// the width of the rune in the term: an invalid byte is
+				// 1 byte wide, not the 3 bytes of an encoded U+FFFD
+				_, rlen := utf8.DecodeRune(tokout.Term[sofar:])
+				// an earlier filter may have changed the length of the term
+				// (width normalization, invalid bytes re-encoded as U+FFFD),
+				// keep the offsets inside the source token
+				start := tokout.Start + sofar
+				if start > tokout.End {
+					start = tokout.End
+				}
+				end := tokout.Start + sofar + rlen
+				if end > tokout.End {
+					end = tokout.End
+				}
 				token := &analysis.Token{
 					Term:         tokout.Term[sofar : sofar+rlen],
-					Start:        tokout.Start + sofar,
-					End:          tokout.Start + sofar + rlen,
+					Start:        start,
+					End:          end,
 					PositionIncr: 0,
 					Type:         tokout.Type,
 					KeyWord:      tokout.KeyWord,
